@@ -20,10 +20,10 @@ for n in sorted(os.listdir(os.path.join(wt, "_out"))):
     ok = ca == 0 and ct == 0 and c1 == 0
     print("%s-eq%s apply=%d suite=%d (%s) demo=%d => %s" % (prop, n, ca, ct, tail, c1, "CONFIRMED" if ok else "REJECTED"))
     if ok:
-        dst = "/verif/seeded_equiv/%s-eq%s" % (prop, n)
+        dst = "/verif/seeded_equiv/%s-%s%s" % (prop, os.path.basename(wt).split("-")[2], n)
         os.makedirs(dst, exist_ok=True)
         for f in ("patch.diff", "demo.py", "notes.md"):
             if os.path.exists(os.path.join(d, f)):
                 open(os.path.join(dst, f), "w").write(open(os.path.join(d, f)).read().replace(wt, "/tmp/moclo-wt"))
-        json.dump({"id": "%s-eq%s" % (prop, n), "property": prop, "kind": "behaviour-preserving re-implementation (the property still holds): checks must stay green",
+        json.dump({"id": "%s-%s%s" % (prop, os.path.basename(wt).split("-")[2], n), "property": prop, "kind": "behaviour-preserving re-implementation (the property still holds): checks must stay green",
                    "source": "independent sub-agent given only the property text", "confirmed": {"suite_with_patch": tail, "agent_demo_with_patch_exit": c1}, "check_result": None}, open(os.path.join(dst, "meta.json"), "w"), indent=1)
